@@ -19,6 +19,7 @@ Definition c02_op (c2 : S2.cfg) (m : M2.cache) (o : op) : M2.cache * rv :=
   | None => match o with
             | Copy => (m, RItems (M2.ring m))
             | Snapshot _ => (m, RItems (sort_items (M2.store m)))
+            | CopyCopy => (m, RItems (M2.ring m))
             | _ => (m, RBool true)
             end
   end.
@@ -95,6 +96,10 @@ Section Link.
       + destruct SF as [I [p [PR R]]].
         rewrite (snapshot_link tb c s m p w (lk_of _ _ _ I PR) R).
         split; [reflexivity|]. split; [exact I|]. exists p. split; assumption.
+      + destruct SF as [I [p [PR R]]].
+        rewrite (copycopy_link tb c s m p (lk_of _ _ _ I PR) R).
+        * split; [reflexivity|]. split; [exact I|]. exists p. split; assumption.
+        * destruct I as [_ _ _ _ CAP _]. exact CAP.
   Qed.
 
   Variable progs : nat -> list op.
